@@ -35,7 +35,7 @@ func init() {
 			}
 			return []runner.Phase{
 				{Name: "box", Variant: "plain", Cases: c10boxCount(), Run: c10box, Required: []string{"nts_cases", "simple_cases", "picks"}},
-				{Name: "random", Variant: "plain", Cases: n, Run: c10random, Required: []string{"nts_cases", "simple_cases", "vnode_rings", "unknown_dc_keyspaces", "lookups", "picks", "hashed_murmur_rings", "policy_host_removed", "policy_keyspace_change_overlaps_ring_change", "second_keyspaces", "policy_ring_change_without_keyspace_description", "lookups_without_keyspace_description"}},
+				{Name: "random", Variant: "plain", Cases: n, Run: c10random, Required: []string{"nts_cases", "simple_cases", "vnode_rings", "unknown_dc_keyspaces", "lookups", "picks", "hashed_murmur_rings", "policy_host_removed", "policy_keyspace_change_overlaps_ring_change", "second_keyspaces", "policy_ring_change_without_keyspace_description", "lookups_without_keyspace_description", "policy_node_down_during_lookups", "policies_with_shuffled_replicas"}},
 			}
 		},
 	})
@@ -209,9 +209,17 @@ func c10check(c *runner.Ctx, cfg *c10cfg, probes []int64) {
 		}
 	}
 	// lookups through the token-aware policy (exercises replicasFor / wrap-around)
+	// (with ShuffleReplicas the order in which replicas are *offered* is random by design; the placement the policy
+	// keeps is not, and routing queries must not disturb it)
+	shuffle := runner.H(cfg.String(), "shuffle")%3 == 0
 	pol := gocql.TokenAwareHostPolicy(gocql.RoundRobinHostPolicy())
+	if shuffle {
+		pol = gocql.TokenAwareHostPolicy(gocql.RoundRobinHostPolicy(), gocql.ShuffleReplicas())
+		c.Add("policies_with_shuffled_replicas", 1)
+	}
 	gocql.VerifInitTokenAware(pol, "ks", func(string) (*gocql.KeyspaceMetadata, error) { return ks, nil })
 	ok := true
+	downHost := -1
 	func() {
 		defer func() {
 			if r := recover(); r != nil {
@@ -233,7 +241,19 @@ func c10check(c *runner.Ctx, cfg *c10cfg, probes []int64) {
 			}
 			return ks, nil
 		})
-		switch order := int(runner.H(cfg.String()) % 8); order {
+		switch order := int(runner.H(cfg.String()) % 9); order {
+		case 8:
+			// a node is reported down (and stays down for the lookups below): that changes who is asked, not where
+			// Cassandra keeps the data - the node still owns its ranges and is still a replica of the others'
+			pol.SetPartitioner(part)
+			for _, h := range hosts {
+				pol.AddHost(h)
+			}
+			pol.KeyspaceChanged(gocql.KeyspaceUpdateEvent{Keyspace: "ks"})
+			downHost = int(runner.H(cfg.String(), "down") % uint64(len(hosts)))
+			gocql.VerifSetHostState(hosts[downHost], false)
+			pol.HostDown(hosts[downHost])
+			c.Add("policy_node_down_during_lookups", 1)
 		case 7:
 			// the keyspace description cannot be read (control connection being re-established) while the ring changes:
 			// until it can be read again the policy has no placement for the keyspace - it may answer with the owner of the
@@ -380,37 +400,47 @@ func c10check(c *runner.Ctx, cfg *c10cfg, probes []int64) {
 	if !ok {
 		return
 	}
-	for _, p := range probes {
-		i := ring.Index(big.NewInt(p))
-		exp, okx := expected(i)
-		if !okx {
-			continue
-		}
-		hs, err := gocql.VerifTokenAwareReplicas(pol, "ks", c10tokStr(cfg.partitioner, p))
-		if err != nil {
-			c.Broken(err.Error())
-			return
-		}
-		var ids []string
-		for _, h := range hs {
-			ids = append(ids, h.HostID())
-		}
-		c.Add("lookups", 1)
-		if len(exp) == 0 && len(ids) == 0 {
-			continue
-		}
-		if bad := c10compare(cfg.simple, ids, exp, ring.Owner(i), nodesN, cfg); bad != "" {
-			pos := "between"
-			switch {
-			case p < ring.Token(0).Int64():
-				pos = "below-min"
-			case p > ring.Token(ring.Len()-1).Int64():
-				pos = "above-max"
-			case ring.Token(i).Int64() == p:
-				pos = "equal"
+	lookups := func(when string) bool {
+		for _, p := range probes {
+			i := ring.Index(big.NewInt(p))
+			exp, okx := expected(i)
+			if !okx {
+				continue
 			}
-			c.Violation(fmt.Sprintf("C10:%s:lookup:%s:%s:%s", class, strings.SplitN(bad, ":", 2)[0], pos, vn), "replicas looked up for a token differ from Cassandra's placement: "+bad, wit(fmt.Sprintf("lookup %d: driver %v, Cassandra %v", p, ids, nodeIDs(exp))))
+			hs, err := gocql.VerifTokenAwareReplicas(pol, "ks", c10tokStr(cfg.partitioner, p))
+			if err != nil {
+				c.Broken(err.Error())
+				return false
+			}
+			var ids []string
+			for _, h := range hs {
+				ids = append(ids, h.HostID())
+			}
+			c.Add("lookups", 1)
+			if len(exp) == 0 && len(ids) == 0 {
+				continue
+			}
+			if bad := c10compare(cfg.simple, ids, exp, ring.Owner(i), nodesN, cfg); bad != "" {
+				pos := "between"
+				switch {
+				case p < ring.Token(0).Int64():
+					pos = "below-min"
+				case p > ring.Token(ring.Len()-1).Int64():
+					pos = "above-max"
+				case ring.Token(i).Int64() == p:
+					pos = "equal"
+				}
+				c.Violation(fmt.Sprintf("C10:%s:lookup%s:%s:%s:%s", class, when, strings.SplitN(bad, ":", 2)[0], pos, vn), "replicas looked up for a token differ from Cassandra's placement: "+bad, wit(fmt.Sprintf("lookup %d: driver %v, Cassandra %v", p, ids, nodeIDs(exp))))
+			}
 		}
+		return true
+	}
+	if !lookups("") {
+		return
+	}
+	if downHost >= 0 {
+		gocql.VerifSetHostState(hosts[downHost], true)
+		pol.HostUp(hosts[downHost])
 	}
 	// the same lookups through the policy's own Pick, with a routing key that hashes to the probe
 	// (all hosts are up and the fallback has one tier, so the plan starts with the replica list)
@@ -459,8 +489,24 @@ func c10check(c *runner.Ctx, cfg *c10cfg, probes []int64) {
 		for _, h := range seq {
 			ids = append(ids, h.HostID())
 		}
+		if shuffle {
+			// offered in a random order: the same nodes, each once
+			got, want := append([]string{}, ids...), nodeIDs(exp)
+			sort.Strings(got)
+			sort.Strings(want)
+			if strings.Join(got, ",") != strings.Join(want, ",") {
+				c.Violation(fmt.Sprintf("C10:%s:pick:shuffled:wrong-set:%s:%s", class, pos, vn), fmt.Sprintf("the hosts the token-aware policy (shuffling replicas) offers first for a routing key are not Cassandra's replicas of its token: offered %v, Cassandra %v", ids, nodeIDs(exp)), wit(fmt.Sprintf("routing key %x (token %d)", key, p)))
+			}
+			continue
+		}
 		if bad := c10compare(cfg.simple, ids, exp, ring.Owner(i), nodesN, cfg); bad != "" {
 			c.Violation(fmt.Sprintf("C10:%s:pick:%s:%s:%s", class, strings.SplitN(bad, ":", 2)[0], pos, vn), "the hosts the token-aware policy offers first for a routing key are not Cassandra's replicas of its token: "+bad, wit(fmt.Sprintf("routing key %x (token %d): offered first %v, Cassandra %v", key, p, ids, nodeIDs(exp))))
+		}
+	}
+	if shuffle {
+		// what the policy keeps is still the placement, owner first, after all that routing
+		if !lookups(":after-routing") {
+			return
 		}
 	}
 	// a second keyspace in the same policy (learned through a schema event), replicated with the *other* strategy and,
